@@ -641,15 +641,17 @@ Section Composition.
 
   (* ---- irrigation ---------------------------------------------------------------------- *)
   Section Irr.
-    Variables (B E : Z) (ls : list (line P)).
+    (* [B0] = value of g.BEGINN while the irrigation file is read (0: BEGINN is only set later, input.go:590),
+       [B] = first day of the loop *)
+    Variables (B0 B E : Z) (ls : list (line P)).
     Hypothesis HB : 0 < B.
-    Let K := kept B (processed true ls).
+    Let K := kept B0 (processed true ls).
     Let D := dates K.
     (* at most one irrigation per day, ascending: the kept dates are strictly increasing *)
     Hypothesis Hstrict : strict_from (B - 1) D.
 
     Lemma irr_arrays :
-      let s := irr_read dflt B ls in
+      let s := irr_read dflt B0 ls in
       rd_n s = Z.of_nat (length D) /\
       (forall i, (i < length D)%nat -> rd_date s (Z.of_nat i) = nth i D 0) /\
       (forall i, (i < length K)%nat -> rd_pay s (Z.of_nat i) = snd (nth i K (ev0 dflt))) /\
@@ -661,9 +663,9 @@ Section Composition.
         - intros i Hi. lia.
         - now cbn.
         - intros j Hj. now cbn. }
-      pose proof (scan_repr dflt B ls true s0 _ _ R0) as R. cbn [app] in R. fold K in R.
+      pose proof (scan_repr dflt B0 ls true s0 _ _ R0) as R. cbn [app] in R. fold K in R.
       destruct R as (Rn & Rs & _ & _).
-      set (s := rd_scan B true ls s0) in *.
+      set (s := rd_scan B0 true ls s0) in *.
       assert (HlenD : length D = length K) by (unfold D, dates; now rewrite map_length).
       cbn zeta. unfold irr_read. fold s0. fold s. cbn [rd_n rd_date rd_pay].
       rewrite <- HlenD in Rn.
@@ -676,7 +678,7 @@ Section Composition.
     Qed.
 
     Lemma irr_closed_form :
-      irr_fired (rd_date (irr_read dflt B ls)) B E = expected_once 0 E 0 D.
+      irr_fired (rd_date (irr_read dflt B0 ls)) B E = expected_once 0 E 0 D.
     Proof.
       destruct irr_arrays as (Hn & Hd & _ & Hz).
       unfold irr_fired, ndays.
@@ -939,11 +941,11 @@ Section Packaged.
 
   Lemma c10_exact_once_irr B E (ls : list (line P)) :
     0 < B ->
-    let D := dates (K B ls) in
+    let D := dates (K 0 ls) in
     strict_from (B - 1) D ->
-    exactly_once_in_order (irr_fired (rd_date (irr_read dflt B ls)) B E) D 0 E 0.
+    exactly_once_in_order (irr_fired (rd_date (irr_read dflt 0 ls)) B E) D 0 E 0.
   Proof.
-    intros HB D Hs. rewrite (irr_closed_form dflt B E ls HB Hs). fold D.
+    intros HB D Hs. rewrite (irr_closed_form dflt 0 B E ls HB Hs). fold D.
     destruct D as [|d0 r] eqn:ED.
     - cbn. split; [intros i Hi; cbn in Hi; lia|]. split; [intros z s k []|constructor].
     - apply expected_once_bundle. cbn [nth strict_from] in *. split; [lia | tauto].
@@ -992,12 +994,12 @@ Section Packaged.
     split; [|exact Hp]. rewrite Hn. unfold dates. now rewrite map_length.
   Qed.
 
-  Lemma c10_pre_start_irr B (ls : list (line P)) :
-    let s := irr_read dflt B ls in
-    rd_n s = Z.of_nat (length (K B ls)) /\
-    (forall i, (i < length (K B ls))%nat -> rd_pay s (Z.of_nat i) = snd (nth i (K B ls) (ev0 dflt))).
+  Lemma c10_irr_payload (ls : list (line P)) :
+    let s := irr_read dflt 0 ls in
+    rd_n s = Z.of_nat (length (K 0 ls)) /\
+    (forall i, (i < length (K 0 ls))%nat -> rd_pay s (Z.of_nat i) = snd (nth i (K 0 ls) (ev0 dflt))).
   Proof.
-    destruct (irr_arrays dflt B ls) as (Hn & _ & Hp & _). cbn zeta.
+    destruct (irr_arrays dflt 0 ls) as (Hn & _ & Hp & _). cbn zeta.
     split; [|exact Hp]. rewrite Hn. unfold dates. now rewrite map_length.
   Qed.
 End Packaged.
@@ -1084,6 +1086,21 @@ Lemma c10_pair_after_pair_refuted :
 Proof.
   exists 100, 400, [200; 200; 201; 201; 300]. destruct pair_after_pair_witness as (H1 & H2 & H3 & H4). rewrite H3, H4.
   repeat split; try assumption; try (cbn; lia); destruct H as [<-|[<-|[<-|[<-|[<-|[]]]]]]; lia.
+Qed.
+
+(* g.BEGINN is still 0 when the irrigation file is read: an irrigation dated before the start is kept,
+   the cursor waits for it forever, and every later irrigation of the field is lost *)
+Lemma prestart_irrigation_witness :
+  irr_fired (rd_date (irr_read tt 0 (mk_lines [90; 150; 200]))) 100 400 = [].
+Proof. vm_compute. reflexivity. Qed.
+
+Lemma c10_prestart_irrigation_refuted :
+  exists (B E : Z) (ds : list Z),
+    strict_from 0 ds /\ (exists d, In d ds /\ B <= d <= E) /\
+    irr_fired (rd_date (irr_read tt 0 (mk_lines ds))) B E = [].
+Proof.
+  exists 100, 400, [90; 150; 200]. rewrite prestart_irrigation_witness.
+  repeat split; try lia. exists 150. cbn. split; [auto | lia].
 Qed.
 
 Lemma c10_prestart_tillage_refuted :
